@@ -1,4 +1,5 @@
 //go:build verif
+
 //verif:dest app/zz_verif_c14_app.go
 
 package band
